@@ -59,13 +59,15 @@ def run(ctx):
     w = 3 if q else 6
     if q:
         M("MCtq.cfg", workers=w, timeout=900)
-        M("MCideal.cfg", workers=w, timeout=900)
+        M("MCCacheLayers.cfg", workers=w, timeout=900)
         M("MCasbuilt.cfg", workers=w, timeout=900)
     else:
         M("MCtqT.cfg", workers=w, timeout=3000)
+        M("MCtq3T.cfg", workers=w, timeout=3000)
         M("MCidealT.cfg", workers=w, timeout=3000)
         M("MCfixedT.cfg", workers=w, timeout=3000)
-        M("MCasbuiltT.cfg", workers=w, timeout=3000, coverage=True, allow_zero=("BChk",))
+        M("MCasbuiltT.cfg", workers=w, timeout=3000)
+        M("MCasbuilt2T.cfg", workers=w, timeout=3000, coverage=True, allow_zero=("BChk",))
 
     # ---------------------------------------------------------------- generators + build (parallel)
     files = ["blockstore/zz_verif_C02_test.go"] + (["blockstore/zz_verif_C02_hooks_test.go"] if hooks else [])
@@ -75,7 +77,7 @@ def run(ctx):
     f_seqbfs = None if q else pool.submit(ctx.tlc_gen, "CacheLayers", "GenSeqCacheLayers.tla", "GenSeq.cfg", timeout=1800)
     f_violB = pool.submit(ctx.tlc_gen, "CacheLayers", "GenSchedCacheLayers.tla", "GenViolB.cfg", timeout=1200, workers=2)
     f_sim = pool.submit(ctx.tlc_gen, "CacheLayers", "GenSchedCacheLayers.tla", "GenSchedSim.cfg",
-                        simulate=30 if q else 300, depth=500, timeout=1200)
+                        simulate=150 if q else 1500, depth=500, timeout=1200)
     f_violA = pool.submit(ctx.tlc_gen, "CacheLayers", "GenSchedCacheLayers.tla", "GenViolA.cfg",
                           timeout=1200, workers=2) if hooks else None
 
@@ -129,7 +131,7 @@ def run(ctx):
         ctx.log("hasCached order under test: %s" % ("as built (active, then pointer)" if toctou_as_built else "repaired"))
         f_simh = pool.submit(ctx.tlc_gen, "CacheLayers", "GenSchedCacheLayers.tla",
                              "GenSchedSimHooks.cfg" if toctou_as_built else "GenSchedSimHooksFixed.cfg",
-                             simulate=40 if q else 400, depth=700, timeout=1200)
+                             simulate=150 if q else 1500, depth=700, timeout=1200)
     sims = f_sim.result()
     if ctx.replay_behaviours(binp, TEST, PKG, sims, env={"C02_KIND": "sched"}, name="sched", nontrivial=overlap) is None:
         return
